@@ -5,7 +5,7 @@ CONSTANTS
   NSlots = 2
   MaxVal = 2
   DropOnAbort = TRUE
-  LookupFirst = FALSE
-  AlwaysWrite = FALSE
+  LookupFirst = TRUE
+  AlwaysWrite = TRUE
 INVARIANTS Coherent OneCopy
 CHECK_DEADLOCK FALSE
